@@ -69,6 +69,10 @@ type Item struct {
 	Instr ssa.Instruction
 	Pol   bool // branch polarity for *ssa.If items
 	Frame *Frame
+	// Cond, for *ssa.If items, is the branch condition as it is on this path: a condition that was
+	// materialised into a boolean variable (`trip := a >= b; …; if trip`) is resolved through the φ
+	// to the comparison the path actually came through.
+	Cond ssa.Value
 }
 
 type Trace struct {
@@ -172,6 +176,7 @@ type walkState struct {
 	decided  map[ssa.Value]bool    // branch decisions taken on this path (frame-local values)
 	cells    map[*ssa.Alloc]AbsVal // abstract contents of local variable cells (spilled results)
 	facts    map[string]factVal    // what earlier branches/stores established about memory locations
+	phiSel   map[*ssa.Phi]ssa.Value // which operand each φ took the last time the path entered its block
 	panicing bool
 	recov    bool
 }
@@ -185,6 +190,10 @@ func (w *walkState) clone() *walkState {
 	}
 	for k, v := range w.cells {
 		n.cells[k] = v
+	}
+	n.phiSel = make(map[*ssa.Phi]ssa.Value, len(w.phiSel))
+	for k, v := range w.phiSel {
+		n.phiSel[k] = v
 	}
 	n.facts = make(map[string]factVal, len(w.facts))
 	for k, v := range w.facts {
@@ -296,6 +305,16 @@ func (s *Spec) walkBlock(fr *Frame, b *ssa.BasicBlock, pred *ssa.BasicBlock, st 
 						phiVals = map[*ssa.Phi]AbsVal{}
 					}
 					phiVals[ph] = s.abs(ph.Edges[pi], st)
+					if st.phiSel == nil {
+						st.phiSel = map[*ssa.Phi]ssa.Value{}
+					}
+					sel := ph.Edges[pi]
+					if inner, isPhi := sel.(*ssa.Phi); isPhi {
+						if v, ok := st.phiSel[inner]; ok && inner.Block() != b {
+							sel = v
+						}
+					}
+					st.phiSel[ph] = sel
 				}
 				break
 			}
@@ -408,8 +427,23 @@ func (s *Spec) note(fr *Frame, in ssa.Instruction, st *walkState) {
 }
 
 func (s *Spec) doIf(fr *Frame, b *ssa.BasicBlock, x *ssa.If, st *walkState, emit func(*Trace)) {
-	a := s.abs(x.Cond, st)
-	fk, fkOK := s.factKey(x.Cond, fr)
+	cond := x.Cond
+	for i := 0; i < 4; i++ {
+		ph, isPhi := cond.(*ssa.Phi)
+		if !isPhi {
+			break
+		}
+		sel, ok := st.phiSel[ph]
+		if !ok {
+			break
+		}
+		cond = sel
+	}
+	a := s.abs(cond, st)
+	if a.K == AUnknown {
+		a = s.abs(x.Cond, st)
+	}
+	fk, fkOK := s.factKey(cond, fr)
 	if a.K == AUnknown && fkOK {
 		if v, ok := fk.lookup(st.facts); ok {
 			if v {
@@ -425,13 +459,13 @@ func (s *Spec) doIf(fr *Frame, b *ssa.BasicBlock, x *ssa.If, st *walkState, emit
 		}
 		w.decided[x.Cond] = pol
 		// propagate the decision to the operands (x == nil, !x, …) so later tests agree
-		s.assume(x.Cond, pol, w)
+		s.assume(cond, pol, w)
 		if fkOK {
 			fk.record(w.facts, pol)
 		}
 		if s.Cond != nil {
 			if l := s.Cond(x, fr); l != "" {
-				w.items = append(w.items, Item{Label: l, Instr: x, Pol: pol, Frame: fr})
+				w.items = append(w.items, Item{Label: l, Instr: x, Pol: pol, Frame: fr, Cond: cond})
 			}
 		}
 		succ := b.Succs[0]
